@@ -11,7 +11,11 @@ def modelled : List String := [
   "_td.py:TensorDict._parse_batch_size",
   "base.py:TensorDictBase._items_list",
   "base.py:TensorDictBase._values_list",
+  "nn/probabilistic.py:ProbabilisticTensorDictSequential.forward",
+  "nn/sequence.py:TensorDictSequential.forward",
+  "utils.py:_check_keys",
   "utils.py:_getitem_batch_size",
+  "utils.py:_parse_to",
   "utils.py:_unravel_key_to_tuple",
   "utils.py:unravel_key",
   "utils.py:unravel_key_list",
@@ -35,9 +39,7 @@ def differentialOnly : List String := [
   "nn/common.py:TensorDictModule.__getattr__",
   "nn/common.py:TensorDictModuleWrapper.__getattr__",
   "nn/params.py:TensorDictParams._new_unsafe",
-  "nn/probabilistic.py:ProbabilisticTensorDictSequential.forward",
   "nn/probabilistic.py:_dynamo_friendly_to_dict",
-  "nn/sequence.py:TensorDictSequential.forward",
   "nn/utils.py:_set_skip_existing_None.__call__",
   "nn/utils.py:_set_skip_existing_None.__call__.wrapper",
   "nn/utils.py:set_skip_existing.__enter__",
@@ -53,10 +55,8 @@ def differentialOnly : List String := [
   "tensorclass.py:_wrap_td_method.wrapped_func_setter",
   "utils.py:_ContextManager.get_mode",
   "utils.py:_ContextManager.set_mode",
-  "utils.py:_check_keys",
   "utils.py:_is_non_tensor",
   "utils.py:_is_tensorclass",
-  "utils.py:_parse_to",
   "utils.py:_pass_through_cls",
   "utils.py:cache",
   "utils.py:cache.newfun"]
